@@ -3,6 +3,8 @@
 import json
 import os
 
+import re
+
 from . import term as T
 from . import sites
 from .evalr import Evaluator
@@ -388,6 +390,42 @@ def check_debug_regions(rep, dbg):
             if node.get('k') in ('Assign', 'AssignOp'):
                 n += 1
                 rep.bad('PROFILE', f'PROFILE-ASSIGN:{b.path}', loc(node), 'assignment inside a debug_assert', 'debug-only code has no effect on program state', fn=b.path)
+    return n
+
+
+# ---------------------------------------------------------------- forwarding impls forward everything
+
+MODEL_TRAITS_FWD = ('arrival::ArrivalBound', 'demand::RequestBound', 'demand::AggregateRequestBound', 'supply::SupplyBound',
+                    'wcet::JobCostModel')
+
+
+def check_forwarding(rep, crate):
+    """every implementation of a model trait for a wrapper (&T, Box<T>, Rc<T>, generated by auto_impl) forwards EVERY method
+    of the trait, including those with a default body: a wrapper that falls back to a default answers differently from
+    the value it wraps (e.g. the brute-force default steps_iter does not terminate for a bound with finitely many steps,
+    the default service_time ignores a closed form)"""
+    n = 0
+    for imp in crate.impls:
+        tr = imp.get('trait')
+        if tr not in MODEL_TRAITS_FWD or not (imp.get('mac') and 'auto_impl' in imp['mac']):
+            continue
+        t = crate.traits.get(tr)
+        if t is None:
+            continue
+        want = {it['name'] for it in t.get('items', []) if it.get('kind', 'Fn') in ('Fn', 'AssocFn', None) or 'has_default' in it}
+        have = {it['name'] for it in imp['items']}
+        n += 1
+        ty = re.sub(r'/#\d+', '', imp.get('self_ty', '?'))
+        key = f"FWD:{tr}:{ty.split('<')[0].split('::')[-1] if '<' in ty else ty}"
+        where = f"{imp.get('file')}:{imp.get('line')}"
+        missing = sorted(want - have)
+        if not missing:
+            rep.ok('FWD', key, where, f'impl {tr} for {ty} forwards all {len(want)} methods', fn=imp.get('path'))
+        else:
+            rep.bad('FWD', key, where, f'impl {tr} for {ty} does not forward {missing}: the wrapper uses the trait default there', 'every method forwarded to the wrapped value',
+                    fn=imp.get('path'), direction='a wrapped model answers differently from the model itself',
+                    why='the default steps_iter scans all interval lengths and never ends for a bound with finitely many steps (Never, a clone_with_jitter of it); '
+                        'the default service_time / cost_of_jobs / least_wcet ignore the closed forms')
     return n
 
 
